@@ -170,6 +170,25 @@ def fatherOf (tw : TW) (o : Obs) (a : Obj) : Option (Option Obj) :=
   | none => none
   | some ia => (T.father tw.w.g ia).map o.nodeFromGid
 
+/-! ### when the calls with an edge object must go through / must be refused (executable preconditions;
+`Props/C15Obs.lean` proves them of the model, the driver evaluates them on the implementation's reports) -/
+
+/-- `addSon(a, s, x)` has everything it needs: both node objects are known, the edge object is attached
+nowhere, and the father is not yet related to the son -/
+def addSonReady (tw : TW) (k : Nat) (a s x : Obj) : Bool :=
+  match tw.w.getObs k with
+  | none => false
+  | some o =>
+    match AL.find a o.Ng, AL.find s o.Ng with
+    | some ia, some is => !o.hasEdge x && tw.w.g.hasNode ia && tw.w.g.hasNode is && (tw.w.g.outE ia is).isNone
+    | _, _ => false
+
+/-- `setFather(a, f, x)` is given an object attached to another branch than the one to the current father of `a` -/
+def setFatherForeign (tw : TW) (k : Nat) (a x : Obj) : Bool :=
+  match tw.w.getObs k with
+  | none => false
+  | some o => o.hasEdge x && tw.edgeToFather o a != some (some x)
+
 end TW
 
 inductive TWOp where
